@@ -174,12 +174,45 @@ def rule_eqhash(report, cls, exceptions=None, clause=None, require_init_match=Tr
 # --------------------------------------------------------------------------
 # R-IMMUT
 
-def rule_immut_class(report, cls, fresh_ctor_methods=(), clause=None):
+def _constructor_only(cls, index):
+    """private methods of `cls` that are part of construction: every reference to the name anywhere in
+    the package is a call `self.<name>(...)` made from __init__ of this class (or from another such helper)"""
+    if index is None:
+        return set()
+    cand = {n for n, f in cls.methods.items() if n.startswith("_") and not n.startswith("__") and f.kind == "method"}
+    refs = {n: [] for n in cand}
+    for fn in index.all_functions():
+        called = set()
+        for node in walk_no_nested(fn.node):
+            if isinstance(node, ast.Call) and isinstance(node.func, ast.Attribute) and node.func.attr in cand:
+                called.add(id(node.func))
+                ok = fn.cls is cls and isinstance(node.func.value, ast.Name) and fn.params \
+                    and node.func.value.id == fn.params[0]
+                refs[node.func.attr].append(fn.name if ok else None)
+        for node in walk_no_nested(fn.node):
+            if isinstance(node, ast.Attribute) and node.attr in cand and id(node) not in called:
+                refs[node.attr].append(None)
+            if isinstance(node, ast.Constant) and node.value in cand:
+                refs[node.value].append(None)          # getattr(obj, "<name>") and the like
+    only = set()
+    changed = True
+    while changed:
+        changed = False
+        for n in sorted(cand - only):
+            if refs[n] and all(r == "__init__" or r in only for r in refs[n]):
+                only.add(n)
+                changed = True
+    return only
+
+
+def rule_immut_class(report, cls, fresh_ctor_methods=(), clause=None, index=None):
     """No method other than __init__ stores to an attribute/subscript of self
     or of a parameter; constructors listed in fresh_ctor_methods may store on
-    a local bound to cls()."""
+    a local bound to cls().  A private helper that only __init__ calls (on self) is part of
+    construction: its stores to self are __init__'s."""
     rule = "R-IMMUT"
     n_methods = 0
+    ctor_only = _constructor_only(cls, index)
     for name, fn in sorted(cls.methods.items()):
         n_methods += 1
         report.covered(fn)
@@ -241,7 +274,7 @@ def rule_immut_class(report, cls, fresh_ctor_methods=(), clause=None):
                     if not isinstance(base, ast.Name):
                         continue
                     b = base.id
-                    if name == "__init__" and b == selfname and isinstance(t, ast.Attribute) \
+                    if (name == "__init__" or name in ctor_only) and b == selfname and isinstance(t, ast.Attribute) \
                             and t.value is base:
                         continue
                     if b in fresh and name in fresh_ctor_methods:
@@ -254,7 +287,7 @@ def rule_immut_class(report, cls, fresh_ctor_methods=(), clause=None):
                 cn = call_name(node)
                 if cn == "setattr" and node.args and isinstance(node.args[0], ast.Name):
                     b = node.args[0].id
-                    if not (name == "__init__" and b == selfname) and (b == selfname or b in params):
+                    if not ((name == "__init__" or name in ctor_only) and b == selfname) and (b == selfname or b in params):
                         problems.append(short(node))
                 if isinstance(node.func, ast.Attribute) and node.func.attr in MUTATOR_METHODS:
                     ch = attr_chain(node.func.value)
